@@ -3,6 +3,7 @@ import CvssVerif.Model.V2
 import CvssVerif.Spec.Grammar3
 import CvssVerif.Spec.Grammar2
 import CvssVerif.Driver.Dump
+import CvssVerif.Model.Report
 /-
   Extension operations of the driver.
   `SPEC3` / `SPEC2`: the *specification's* verdict on a string (model-independent oracle used
@@ -244,6 +245,34 @@ def opBig (ver : String) (L : Level) (head unit : Bytes) (n : Nat) : String :=
     let (_, e) := V2.decode L V2.Obj2.new s
     s!"r={if e.isNone then "1" else "0"} e={errTag e}"
 
+/-! ### names, reports, export (C17-C19) -/
+
+def opNM (fn : String) (v : Int) (tag : String) : Option String :=
+  (Names.call fn v (Names.langOf tag)).map fun b => s!"name={toHex b}"
+
+def insertSorted (x : String) : List String → List String
+  | [] => [x]
+  | y :: ys => if x ≤ y then x :: y :: ys else y :: insertSorted x ys
+
+def opR3 (L : Level) (tag : String) (vec : Bytes) : String :=
+  let (o, e) := V3.decode L V3.Obj3.new vec
+  let fields := (Report.mkReport L o (Names.langOf tag)).map fun p => s!"{p.1}={toHex p.2}"
+  let sorted := fields.foldl (fun acc x => insertSorted x acc) []
+  s!"e={errTag e} " ++ " ".intercalate sorted
+
+/-- expected library result of an export, given the reference engine's result on the template -/
+def opXM (mode ref : String) : Option String :=
+  let engine : Bytes → Option Bytes := fun _ =>
+    if ref.startsWith "out:" then ofHex (ref.drop 4).toString else none
+  let show' (r : Option Bytes × Option Err) : String :=
+    (match r.1 with | some b => "out:" ++ toHex b | none => "noout") ++ "|" ++ errTag r.2
+  if mode == "string" then some (show' (Report.exportWithString engine false []))
+  else if mode == "nilreport" then some (show' (Report.exportWithString engine true []))
+  else if mode == "reader" || mode == "chunked" then some (show' (Report.exportWith engine false (.content [])))
+  else if mode == "nilreader" then some (show' (Report.exportWith engine false .nil))
+  else if mode.startsWith "fail:" then some (show' (Report.exportWith engine false .fails))
+  else none
+
 def runOpExt (f : List String) : Option String :=
   match f with
   | ["SPEC3", l, h] => do
@@ -269,6 +298,9 @@ def runOpExt (f : List String) : Option String :=
       let L ← levelOf' l; let s ← ofHex h; let v ← v.toInt?; pure (opF2 L s name v)
   | ["BIG", ver, l, hd, unit, n] => do
       let L ← levelOf' l; let hd ← ofHex hd; let u ← ofHex unit; let n ← n.toNat?; pure (opBig ver L hd u n)
+  | ["NM", fn, v, tag] => do let v ← v.toInt?; opNM fn v tag
+  | ["R3", l, tag, h] => do let L ← levelOf' l; let s ← ofHex h; pure (opR3 L tag s)
+  | ["XM", mode, ref] => opXM mode ref
   | ["SPECT3", m] => spect3 m
   | ["SPECT2", m] => spect2 m
   | _ => none
